@@ -111,7 +111,7 @@ def _c(t, r, w, path, depth):
                 return f"{path}: {type(r).__name__} is not dict (TypedDict {t['n']})"
             total = d.get("total", True)
             for f in d["fields"]:
-                required = (total and not f.get("nr")) or f.get("req")
+                required = (not f["opt"]) if "opt" in f else ((total and not f.get("nr")) or f.get("req"))
                 if f["n"] in r:
                     err = _c(f["t"], r[f["n"]], w, f"{path}.{f['n']}", depth + 1)
                     if err:
